@@ -1339,6 +1339,12 @@ class RestAPI(object):
                     )
                     return aws_error("MissingRequiredParameter"), 400
 
+                if not isinstance(output, str):  # output must be a JSON *string*
+                    self.logger.error(
+                        "RestAPI SendTaskSuccess: InvalidOutput: not a string."
+                    )
+                    return aws_error("InvalidOutput"), 400
+
                 """
                 First check if the output length has exceeded the 262144 character
                 quota described in Stepfunction Quotas page.
@@ -1406,8 +1412,22 @@ class RestAPI(object):
                     return aws_error("MissingRequiredParameter"), 400
 
 
+                """
+                Both error and cause are optional in the SendTaskFailure API.
+                A failure reported without an error name is a States.TaskFailed.
+                """
                 error = params.get("error")
+                if error is None or error == "":
+                    error = "States.TaskFailed"
                 cause = params.get("cause")
+                if cause is None:
+                    cause = ""
+                if not (isinstance(error, str) and isinstance(cause, str)):
+                    self.logger.error(
+                        "RestAPI SendTaskFailure: ValidationError: error and "
+                        "cause must be strings."
+                    )
+                    return aws_error("ValidationError"), 400
 
                 """
                 First check if the error or cause exceed length limits.
